@@ -4,6 +4,7 @@ C10 — The five mode stream objects equal NIST SP 800-38A; decryptors invert en
 import Wencry.Generated.Consts
 import Wencry.Proofs.CtrPosition
 import Wencry.Proofs.ModesCorrect
+import Wencry.Proofs.ModesConverse
 import Wencry.Proofs.AesCorrect
 namespace Wencry.Props.C10
 open Wencry Wencry.Model.Modes
@@ -55,6 +56,32 @@ theorem decryptor_inverts_encryptor (mode : Nat) (key iv : Block) (se sd : Strea
 /-- feeding a stream in several calls continues where the previous call stopped -/
 theorem stream_continuity (s : Stream) (xs ys : List Block) :
     s.run (xs ++ ys) = (((s.run xs).1.run ys).1, (s.run xs).2 ++ ((s.run xs).1.run ys).2) := Proofs.Modes.run_append s xs ys
+
+/-- the converse: the matching encryptor restores a ciphertext stream from what the decryptor produced, for every block list (not only
+    for ciphertexts the encryptor made) — so each decryptor object is a bijection on block lists -/
+theorem encryptor_inverts_decryptor (mode : Nat) (key iv : Block) (se sd : Stream)
+    (he : create true mode key iv = some se) (hd : create false mode key iv = some sd) (cs : List Block) :
+    (se.run (sd.run cs).2).2 = cs := by
+  rw [decryptor_is_sp800_38a mode key iv sd hd, encryptor_is_sp800_38a mode key iv se he]
+  exact Proofs.Modes.spec_encrypt_decrypt mode _ _ (fun x => Proofs.Aes.spec_cipher_invCipher key x) iv cs
+
+/-- two different ciphertext streams never decrypt to the same plaintext stream under one key and IV (what lets C05 conclude
+    "different plaintext or failure" from "different body") -/
+theorem decryptor_injective (mode : Nat) (key iv : Block) (sd : Stream) (hd : create false mode key iv = some sd) (c1 c2 : List Block)
+    (h : (sd.run c1).2 = (sd.run c2).2) : c1 = c2 := by
+  rw [decryptor_is_sp800_38a mode key iv sd hd, decryptor_is_sp800_38a mode key iv sd hd] at h
+  exact Proofs.Modes.spec_decrypt_injective mode _ _ (fun x => Proofs.Aes.spec_cipher_invCipher key x) iv c1 c2 h
+
+/-- two different plaintext streams never encrypt to the same ciphertext stream under one key and IV -/
+theorem encryptor_injective (mode : Nat) (key iv : Block) (se : Stream) (he : create true mode key iv = some se) (p1 p2 : List Block)
+    (h : (se.run p1).2 = (se.run p2).2) : p1 = p2 := by
+  rw [encryptor_is_sp800_38a mode key iv se he, encryptor_is_sp800_38a mode key iv se he] at h
+  exact Proofs.Modes.spec_encrypt_injective mode _ _ (fun x => Proofs.Aes.spec_invCipher_cipher key x) iv p1 p2 h
+
+/-- causality: the first n output blocks are determined by the first n input blocks, whatever follows — the stream can be cut into
+    chunks of any size (the pipeline relies on this together with `stream_continuity`) -/
+theorem stream_prefix (s : Stream) (xs ys : List Block) : (s.run (xs ++ ys)).2.take xs.length = (s.run xs).2 :=
+  Proofs.Modes.run_prefix s xs ys
 
 /-- unknown mode numbers: the factory returns NULL, in both directions -/
 theorem factory_null (isenc : Bool) (mode : Nat) (h : 4 < mode) (key iv : Block) : (create isenc mode key iv).isNone := by
